@@ -125,7 +125,8 @@ def foreign(k, j, serial=0):
     j = j + 4
     # the element's own disabling context / near miss
     if k == 0:
-        return [(histogram([0, 1], [3]), {"output": {"to_csv": False}}), (Obj(), {"output": {"to_csv": False}})][j - 4]
+        return [(histogram([0, 1], [3]), {"output": {"to_csv": False, "duplicate_last_bin": False}}),
+                (Obj(), {"output": {"duplicate_last_bin": False}})][j - 4]
     if k == 1:
         return [("text", {"output": {"write": False}}), (Options(serial), {"output": {"filename": "nope"}})][j - 4]
     if k == 2:
